@@ -53,4 +53,48 @@ def row_operation_width(ck, F, rule, fn, floor=3):
         ck.inst(rule, "%s:row-op#%d:%s" % (fn.rsplit("::", 1)[-1], n, kind), ok and lo_ok, e.site,
                 "%s over columns %r..%r ; required pivot column .. number of columns (whole remaining row)" % (
                     kind, inner[2] if inner else None, inner[3] if inner else None))
+    # Row *selection* of the eliminations: `row_t -= x * row_p` must be applied to exactly the rows on one side of the pivot row p:
+    # t in p+1..nrows (rows below) or t in 0..p (rows above). A range anchored at anything else (e.g. the column counter) skips
+    # rows that still hold a one in the pivot column or touches rows that are already reduced.
+    NROWS = app("proj0", app(DIM, var("array")))
+    from .symx import contains_atom, vkey
+    ne = 0
+    for kind, e, idx in ops:
+        if kind != "store" or not (isinstance(idx, tuple) and idx[0] == "array"):
+            continue
+        unp = lambda c: c[1] if isinstance(c, tuple) and len(c) == 2 and c[0] == "P" else c
+        trow = unp(idx[1][0])
+        src = e.args[1]
+        # pivot row: the row index of a read array[[p, col]] with p != target row
+        prow = None
+        stack = [src]
+        while stack:
+            x = stack.pop()
+            if isinstance(x, Poly):
+                for mono in x.t:
+                    for a_, _ in mono:
+                        if a_[0] == "f":
+                            if atom_fn(a_) == "index" and isinstance(a_[3], tuple) and a_[3][0] == "array":
+                                r0 = unp(a_[3][1][0])
+                                if r0 != trow:
+                                    prow = r0
+                            stack.extend(k[1] for k in a_[2:] if isinstance(k, tuple) and len(k) == 2 and k[0] == "P")
+            elif isinstance(x, tuple) and len(x) == 3 and x[0] == "R":
+                stack.extend([x[1], x[2]])
+            elif hasattr(x, "n") and hasattr(x, "d"):
+                stack.extend([x.n, x.d])
+        if prow is None:
+            continue
+        ta = single_atom(trow) if isinstance(trow, Poly) else None
+        rl = [l for l in e.loops if l[0] == "range" and ta is not None and ta[0] == "v" and l[1] == ta[1]]
+        ne += 1
+        ok = False
+        why = "target row is not a loop variable"
+        if rl:
+            lo, hi, incl = rl[0][2], rl[0][3], rl[0][4]
+            below = lo == prow + num(1) and hi == NROWS and not incl
+            above = lo == num(0) and hi == prow and not incl
+            ok = below or above
+            why = "row %r -= x * row %r for rows %r..%r ; required exactly the rows below (p+1..nrows) or above (0..p) the pivot row" % (trow, prow, lo, hi)
+        ck.inst(rule, "%s:elimination-rows#%d" % (fn.rsplit("::", 1)[-1], ne), ok, e.site, why)
     ck.floor(rule, "row operations in " + fn, n, floor)
